@@ -320,6 +320,62 @@ pub fn run(rep: &mut Rep) {
         }
     }
     rep.note(&format!("{scripts} PRNG scripts of <= {steps} actions (one stimulus at a time, settle in between; operations of every kind, acks, inbound traffic, stream operations, cancellations, every terminating cause, drop(context)) generated under the wake-only discipline D0 with whole-packet reads; each is replayed under {} variants: {{D0, D1 = sweep of all tasks after every event, D2 = spurious polls at 3 PRNG placements}} x reader {{whole, 1-/2-byte read caps, 1-/2-byte trickled arrival}} x writer {{all, 1 byte per call, Pending every other call}}; canonical observations must be identical; plus the no-op sweep at every script end", variants.len()));
+    // directed: an operation is given up (its future dropped) while the context has nothing to do, and its acknowledgement
+    // arrives afterwards. Dropping a future wakes nobody, so whether run() is polled between the two is exactly what a
+    // sweeping or spuriously polling executor changes.
+    {
+        let ack = |op: usize, stage: u8| Act::Ack { op, stage, ridx: 0, form: 0 };
+        let mut directed: Vec<Vec<Act>> = Vec::new();
+        for kind in [Kind::Pub1, Kind::Pub2, Kind::Sub, Kind::Unsub] {
+            directed.push(vec![Act::Start(kind), Act::DropOp(0), ack(0, 1)]);
+            directed.push(vec![Act::Start(Kind::Pub1), Act::Start(kind), Act::DropOp(1), ack(1, 1), ack(0, 1)]);
+            directed.push(vec![Act::Start(kind), Act::Start(Kind::Pub1), Act::DropOp(0), ack(1, 1), ack(0, 1)]);
+        }
+        directed.push(vec![Act::Start(Kind::Pub2), Act::DropOp(0), ack(0, 1), ack(0, 2)]);
+        directed.push(vec![Act::Start(Kind::Pub2), ack(0, 1), Act::DropOp(0), ack(0, 2)]);
+        directed.push(vec![Act::Start(Kind::Pub2), Act::Start(Kind::Pub2), Act::DropOp(0), Act::DropOp(1), ack(1, 1), ack(0, 1), ack(0, 2), ack(1, 2)]);
+        directed.push(vec![Act::Start(Kind::Ping), Act::DropOp(0), Act::PingResp]);
+        directed.push(vec![Act::Start(Kind::Ping), Act::Start(Kind::Ping), Act::DropOp(0), Act::PingResp, Act::PingResp]);
+        rep.note(&format!("{} directed scripts (an operation of every kind given up while the context is idle, its acknowledgement(s) arriving afterwards, alone and next to a live operation), each replayed under all {} variants", directed.len(), variants.len()));
+        for (k, acts) in directed.iter().enumerate() {
+            let id = format!("given-up:{k}");
+            if !rep.take(90_000_000 + k as u64, &id) {
+                continue;
+            }
+            let seed = rep.seed.wrapping_mul(77).wrapping_add(k as u64);
+            let base = Variant { discipline: 0, reader: 0, writer: 0, order: 0 };
+            let (mut w0, ref_obs, div0) = replay(seed, base, &a, acts);
+            rep.add("evaluations", 1);
+            if div0.is_some() || w0.blind {
+                rep.add("directed_scripts_not_applicable", 1);
+                harvest(rep, &mut w0, &id);
+                continue;
+            }
+            rep.add("directed_given_up_scripts", 1);
+            harvest(rep, &mut w0, &id);
+            for (vi, v) in variants.iter().enumerate() {
+                let vid = format!("{id}:v{vi}");
+                let (mut w, obs, diverged) = replay(seed, *v, &a, acts);
+                rep.add("evaluations", 1);
+                rep.add("variant_runs", 1);
+                rep.distinct(&("given-up", k, vi));
+                let which = match v.discipline {
+                    0 => "wake-only",
+                    1 => "sweep-after-every-event",
+                    _ => "spurious-polls",
+                };
+                if let Some(step) = diverged {
+                    w.viol(&["C16"], format!("C16/script-diverges/{which}"), format!("variant {v:?}: action {step} ({:?}) of the wake-only reference script is not applicable any more - an earlier step behaved differently", acts[step]));
+                } else if let Some((field, d)) = diff_obs(&ref_obs, &obs) {
+                    w.viol(&["C16"], format!("C16/observation-differs/{which}/{field}"), format!("variant {v:?} vs wake-only reference with whole-packet reads: {d}\nscript: {:?}", acts));
+                } else {
+                    rep.add("identical_observations", 1);
+                }
+                harvest(rep, &mut w, &vid);
+                add_counters(rep, &w);
+            }
+        }
+    }
     for k in 0..scripts {
         let id = format!("script:{k}");
         if !rep.take(k, &id) {
